@@ -151,7 +151,7 @@ pub fn scenarios(tier: &str) -> Vec<Scenario> {
 
 pub fn run(tier: &str) -> ! {
 	let mut run = Run::new("C08", tier, "model_checking");
-	let budget = Budget::new(if tier == "thorough" { 3000.0 } else { 100.0 });
+	let budget = Budget::new(if tier == "thorough" { 1500.0 } else { 100.0 });
 	run.set("rule", json!("graph search in which every state offers, besides valid commits / stage events / reopen, every transaction of the invalid family (one invalid operation inserted at every position of a valid multi-column transaction; families: reference without counting, tree operation on a non-tree column and vice versa, dereference of a missing or append-only tree, unrepresentable node, commit in background-error state); oracle for a rejected commit: error returned, digest-without-commit-id and all file bytes identical before/after the call, and all reads keep agreeing with the model (which never saw the transaction) at every later state"));
 	run.assumptions = vec![
 		"a rejected commit may consume a commit id (not observable); everything else reachable from the handle must be unchanged".into(),
